@@ -60,6 +60,10 @@ class _Fn:
         _guard_mul(sum(args), w)
         return sum(args) * w / len(args)
 
+    @staticmethod
+    def tot(c):
+        return sum(c.values()) if isinstance(c, dict) else sum(c)
+
     def __deepcopy__(self, memo):
         return self
 
